@@ -26,19 +26,26 @@ def adtsHeaderLen (f : Bytes) : Nat := if byteAt f 1 % 2 = 1 then 7 else 9
 def adtsFrameLength (f : Bytes) : Nat :=
   (byteAt f 3 % 4) * 2^11 + byteAt f 4 * 2^3 + byteAt f 5 / 32
 
+/-- `channel_configuration` (3 bits across bytes 2 and 3) -/
+def adtsChannelConfig (f : Bytes) : Nat := (byteAt f 2 % 2) * 4 + byteAt f 3 / 64 % 4
+
 def adtsToRaw (f : Bytes) : Except AdtsErr Bytes :=
   if f.length < 7 then .error .frameTooShort else
   if ¬ (byteAt f 0 = 0xFF ∧ byteAt f 1 / 16 = 0xF) then .error .missingSyncword else
   if byteAt f 1 / 8 % 2 ≠ 0 then .error .invalidMpegVersion else
   if byteAt f 1 / 2 % 4 ≠ 0 then .error .invalidLayer else
-  let hl := adtsHeaderLen f
-  if f.length < hl then .error .invalidHeaderLength else
+  if f.length < adtsHeaderLen f then .error .invalidHeaderLength else
   if byteAt f 2 / 4 % 16 > 12 then .error .invalidSampleRateIndex else
-  let ch := (byteAt f 2 % 2) * 4 + byteAt f 3 / 64 % 4
-  if ch = 0 ∨ ch > 7 then .error .invalidChannelConfig else
-  let fl := adtsFrameLength f
-  if fl < hl then .error .invalidFrameLength else
-  if fl > f.length then .error .invalidFrameLength else
-  .ok ((f.take fl).drop hl)
+  if adtsChannelConfig f = 0 ∨ adtsChannelConfig f > 7 then .error .invalidChannelConfig else
+  if adtsFrameLength f < adtsHeaderLen f then .error .invalidFrameLength else
+  if adtsFrameLength f > f.length then .error .invalidFrameLength else
+  .ok ((f.take (adtsFrameLength f)).drop (adtsHeaderLen f))
+
+/-- all guards of `adts_to_raw` pass -/
+def adtsGuards (f : Bytes) : Prop :=
+  7 ≤ f.length ∧ (byteAt f 0 = 0xFF ∧ byteAt f 1 / 16 = 0xF) ∧ byteAt f 1 / 8 % 2 = 0 ∧
+  byteAt f 1 / 2 % 4 = 0 ∧ adtsHeaderLen f ≤ f.length ∧ byteAt f 2 / 4 % 16 ≤ 12 ∧
+  (adtsChannelConfig f ≠ 0 ∧ adtsChannelConfig f ≤ 7) ∧
+  adtsHeaderLen f ≤ adtsFrameLength f ∧ adtsFrameLength f ≤ f.length
 
 end Muxide
